@@ -7,12 +7,14 @@ that `Driver/C14.lean` executes.
 -/
 import NumqiProofs.FinGroupPerm
 import NumqiProofs.FinGroupDihedral
+import NumqiProofs.FinGroupAlt
 import NumqiProofs.YoungPartition
 import NumqiModel.Young
 import Mathlib.Data.Nat.Totient
 import Mathlib.Data.Nat.Factorial.Basic
 import Mathlib.Data.Int.GCD
 import Mathlib.Data.Matrix.Mul
+import Mathlib.Algebra.Group.MinimalAxioms
 
 namespace Numqi.C14
 open Numqi Numqi.FinGroup Numqi.Young
@@ -185,55 +187,50 @@ example : entry quatTable 1 2 ≠ entry quatTable 2 1 ∧ entry kleinTable 1 2 =
 
 /-! ## 5. alternating group
 
-The code selects the even permutations by the parity of `Σ (cycle length − 1)`
-(`cycleEven`, model of `permutation_to_cycle_notation`).  That this parity is multiplicative for
-every `n` (it is the sign) is not proved here — `altTable_isGroupTable.Statement` below is the full
-target; what is proved is (a) for every `n`: *if* the selected set is closed under composition and
-inverse and contains the identity (`altClosedB n`, a finite check on the model), the table is a group
-table, and (b) the finite check itself for the sizes the property quantifies over (`A_2 … A_5`). -/
+The code selects the even permutations by the parity of `Σ (cycle length − 1)` over the cycles that
+`permutation_to_cycle_notation` finds (`cycleEven`, `cycles`, `cycleFrom` in the model).  `NumqiProofs/FinGroupAlt.lean`
+proves, for every `n`, that the walk of `cycleFrom` closes, that the cycles found are pairwise disjoint and cover
+`0..n-1`, that the permutation is the product of the cyclic shifts on them, and hence that this parity is Mathlib's
+`Equiv.Perm.sign`. -/
 
-/-- identity is even, inverses of even tuples are even, products of even tuples are even -/
-def altClosedB (n : Nat) : Bool :=
-  cycleEven (List.range n) &&
-    (altPerms n).all fun p => cycleEven (invPerm n p) && (altPerms n).all fun q => cycleEven (compose p q)
+/-- **the filter of the code is the sign**: a tuple is kept iff it is a rearrangement of `0..n-1` whose permutation
+`i ↦ p[i]` of `Fin n` has sign `+1`. -/
+theorem altPerms_eq_sign {n : Nat} {p : List Nat} :
+    p ∈ altPerms n ↔ ∃ hp : p.Perm (List.range n), Equiv.Perm.sign (permOf hp) = 1 := by
+  simp only [altPerms, List.mem_filter, mem_perms]
+  constructor
+  · rintro ⟨hp, he⟩; exact ⟨hp, (cycleEven_iff_sign' hp).1 he⟩
+  · rintro ⟨hp, hs⟩; exact ⟨hp, (cycleEven_iff_sign' hp).2 hs⟩
 
 theorem mem_altPerms {n : Nat} {p : List Nat} : p ∈ altPerms n ↔ p.Perm (List.range n) ∧ cycleEven p = true := by
   simp [altPerms, List.mem_filter, mem_perms]
 
-/-- **for every `n`**: closedness of the even-cycle-type filter makes the look-up table a group table. -/
-theorem altTable_isGroupTable_of_closed (n : Nat) (h : altClosedB n = true) :
-    IsGroupTable (altTable n) (altPerms n).length := by
-  simp only [altClosedB, Bool.and_eq_true, List.all_eq_true] at h
-  obtain ⟨hid, hcl⟩ := h
+/-- **index 2**: exactly `n!/2` tuples are kept (`n ≥ 2`) -/
+theorem altPerms_length (n : Nat) (hn : 2 ≤ n) : (altPerms n).length = n ! / 2 := by
+  have := two_mul_length_altPerms hn
+  rw [perms_length] at this
+  omega
+
+/-- **`get_symmetric_group_cayley_table(n, alternating=True)` is a group table of order `n!/2`, for every `n ≥ 2`.** -/
+theorem altTable_isGroupTable (n : Nat) (hn : 2 ≤ n) : IsGroupTable (altTable n) (n ! / 2) := by
+  rw [← altPerms_length n hn]
   refine tableOf_isGroupTable (altPerms n) compose ((nodup_perms n).filter _) ?_ ?_ (List.range n) ?_ ?_ ?_
   · intro a ha b hb
-    exact mem_altPerms.2 ⟨compose_perm (mem_altPerms.1 ha).1 (mem_altPerms.1 hb).1, (hcl a ha).2 b hb⟩
+    obtain ⟨ha1, ha2⟩ := mem_altPerms.1 ha
+    obtain ⟨hb1, hb2⟩ := mem_altPerms.1 hb
+    exact mem_altPerms.2 ⟨compose_perm ha1 hb1, cycleEven_compose ha1 hb1 ha2 hb2⟩
   · intro a _ b hb c hc
     exact compose_assoc (perm_length (mem_altPerms.1 hb).1) (fun x hx => perm_lt (mem_altPerms.1 hc).1 hx)
-  · exact mem_altPerms.2 ⟨List.Perm.refl _, hid⟩
+  · exact mem_altPerms.2 ⟨List.Perm.refl _, cycleEven_range n⟩
   · intro a ha
     exact ⟨compose_range_left (fun x hx => perm_lt (mem_altPerms.1 ha).1 hx),
       compose_range_right (perm_length (mem_altPerms.1 ha).1)⟩
   · intro a ha
-    have hp := (mem_altPerms.1 ha).1
-    exact ⟨invPerm n a, mem_altPerms.2 ⟨invPerm_perm hp, (hcl a ha).1⟩,
+    obtain ⟨hp, he⟩ := mem_altPerms.1 ha
+    exact ⟨invPerm n a, mem_altPerms.2 ⟨invPerm_perm hp, cycleEven_invPerm hp he⟩,
       compose_invPerm_right hp, compose_invPerm_left hp⟩
 
-/-- **`get_symmetric_group_cayley_table(n, alternating=True)` is a group table of order `n!/2`
-for `n = 2 … 5`** (`A_3 … A_5` is the range the property states; `A_5` has order 60). -/
-theorem altTable_isGroupTable_le5 (n : Nat) (h2 : 2 ≤ n) (h5 : n ≤ 5) : IsGroupTable (altTable n) (n ! / 2) := by
-  have key : ∀ m, m ∈ [2, 3, 4, 5] → altClosedB m = true ∧ (altPerms m).length = m ! / 2 := by decide +kernel
-  have hn : n ∈ [2, 3, 4, 5] := by simp; omega
-  obtain ⟨hc, hl⟩ := key n hn
-  rw [← hl]
-  exact altTable_isGroupTable_of_closed n hc
-
-/-- the full target (not proved): for every `n ≥ 2` the alternating table is a group table of order `n!/2`.
-Missing step: `cycleEven` is multiplicative for all `n` (equivalently `altClosedB n = true` and
-`(altPerms n).length = n!/2` for all `n`). -/
-def altTable_isGroupTable.Statement : Prop := ∀ n, 2 ≤ n → IsGroupTable (altTable n) (n ! / 2)
-
-/-- the filter is not trivial: `(0 1)` is rejected, the 3-cycle is kept -/
+/-- the filter is not trivial: `(0 1)` is rejected, the 3-cycle is kept, `A_4` has 12 elements -/
 example : cycleEven [1, 0, 2] = false ∧ cycleEven [1, 2, 0] = true ∧ (altPerms 4).length = 12 := by decide
 
 /-! ## 6. left regular form: a faithful homomorphism into permutation matrices
@@ -284,6 +281,22 @@ theorem leftRegular_injective [Nontrivial R] (h : IsGroupTable T N) : Function.I
   by_contra hne
   have : ¬ g.val = k.val := fun e => hne (Fin.ext e)
   simp_all
+
+/-- **a group table is a group**: there is a `Group` structure on `Fin N` whose product is the table look-up
+(so `IsGroupTable` is not a weaker, table-specific notion) -/
+theorem exists_group_of_isGroupTable (h : IsGroupTable T N) :
+    ∃ G : Group (Fin N), ∀ g k : Fin N, (G.mul g k).val = entry T g.val k.val := by
+  obtain ⟨e, he, hid, hinv⟩ := h.ident
+  choose! inv hinv_lt hinv_r hinv_l using hinv
+  let one : Fin N := ⟨e, he⟩
+  let invF : Fin N → Fin N := fun g => ⟨inv g.val, hinv_lt g.val g.isLt⟩
+  refine ⟨@Group.ofLeftAxioms (Fin N) ⟨mulFin h⟩ ⟨invF⟩ ⟨one⟩ ?_ ?_ ?_, fun g k => rfl⟩
+  · intro a b c
+    exact Fin.ext (h.assoc _ _ _ a.isLt b.isLt c.isLt)
+  · intro a
+    exact Fin.ext (hid a.val a.isLt).1
+  · intro a
+    exact Fin.ext (hinv_l a.val a.isLt)
 
 /-- left cancellation in a group table -/
 theorem isGroupTable_left_cancel (h : IsGroupTable T N) {g c c' : Nat} (hg : g < N) (hc : c < N) (hc' : c' < N)
